@@ -160,10 +160,18 @@ def annotate_module(modpath, src, ov, report):
             body = src[it.sig_end + 1:it.end]
             pos = None
             off = it.sig_end + 1
+            nth = 1
+            mo_n = re.search(r'#(\d+)$', rx)
+            if mo_n:
+                nth = int(mo_n.group(1))
+                rx = rx[:mo_n.start()]
+            seen = 0
             for lm in re.finditer(r'[^\n]*\n', body):
                 if re.search(rx, lm.group(0)):
-                    pos = off + (lm.start() if kind == 'before' else lm.end())
-                    break
+                    seen += 1
+                    if seen == nth:
+                        pos = off + (lm.start() if kind == 'before' else lm.end())
+                        break
             report['fragile_anchors'] += 1
             if pos is None:
                 report['lost_anchors'].append('%s: @%s %s' % (q, kind, rx))
